@@ -108,6 +108,15 @@ def process(rec, payload, workdir, idx):
     try:
         engine = fortran_shim.compile_fortran(text, workdir, f'{idx}')
     except fortran_shim.CompileError as e:
+        # gfortran folds constants: 'A = log(-3)' is rejected at compile time.  The property is about data for
+        # which values stay finite, so a program that is non-finite on ordinary finite data is outside it.
+        nm = list(Py.NAMES)
+        Lc = Py.LAGS + Py.LEADS + 2
+        pm = Py(range(Lc))
+        fill(pm, nm, data_table(nm, Lc, 0, seed))
+        o = outcome(lambda: pm._evaluate(Py.LAGS))
+        if o[0] == 'exc' or not all(np.all(np.isfinite(v)) for v in state(pm).values() if v.dtype.kind == 'f'):
+            return 0
         raise Mis('fortran-source-does-not-compile', script=script, error=str(e)[-600:])
 
     class F(FortranEngine, Py):
